@@ -843,6 +843,9 @@ class Interp:
             x = self.operand(w, depth, rv['x'])
             op = rv['op']
             if op == 'Not':
+                if x[0] == 'symcmp':
+                    neg = {'Eq': 'Ne', 'Ne': 'Eq', 'Lt': 'Ge', 'Ge': 'Lt', 'Gt': 'Le', 'Le': 'Gt'}
+                    return [(w, ('symcmp', neg[x[1]], x[2], x[3]))]
                 if x[0] == 'pred':
                     return [(w, ('pred', x[1], x[2], x[4], x[3]))]
                 if x[0] == 'int' and rv['xty'].get('k') == 'bool':
@@ -910,6 +913,9 @@ class Interp:
             a = BOOL
         if b[0] == 'pred':
             b = BOOL
+        if op in _CMP and (a[0] in ('sym', 'symoff') or b[0] in ('sym', 'symoff')) \
+                and self.rule is not None and hasattr(self.rule, 'on_symbranch'):
+            return [(w, ('symcmp', op, a, b))]
         if op in _CMP:
             if a[0] == 'int' and b[0] == 'int':
                 cb = int_singleton(b)
@@ -1104,6 +1110,13 @@ class Interp:
         v = self.operand(w, depth, t['op'])
         tgt = self.operand_target(w, depth, t['op'])
         out = []
+        if v[0] == 'symcmp':
+            covered = set(t['vals'])
+            for val, bbt in list(zip(t['vals'], t['targets'])) + [(x, t['otherwise']) for x in (0, 1) if x not in covered]:
+                w2 = self.rule.on_symbranch(self, w, v, val != 0)
+                if w2 is not None:
+                    out.append((bbt, w2))
+            return out
         if v[0] == 'pred':
             # bool: 0 -> false branch, otherwise (or 1) -> true
             for val, bbt in zip(t['vals'], t['targets']):
